@@ -37,4 +37,10 @@ META = {
   "text": "Theorems: Integer->Float (`i as f64`, Flocq binary_normalize) is monotone on the whole i64 range (so the interval image [value(min), value(max)] contains every converted point), exact and injective for |i| <= 2^53 and NOT injective beyond (refuted with witness: known finding); Float->Integer returns Some i only if i converts back to the same float, non-integral floats are refused; Boolean<->Integer round trip and refusal; the Optional/List/Struct liftings preserve injectivity and membership. Tied to the code bit-exactly on extreme and tie-breaking inputs and interval sets; the three laws of the statement are also evaluated directly on the implementation for random composite types.",
   "note": "Trusted: Coq kernel, vm_compute, Flocq, Reals axioms + classic. Text/Date/Bytes conversions are not modelled (oracle only). Known finding C12-int-float-above-2p53 is reported by the oracle and mirrored by a _refuted theorem.",
  },
+ "C06": {
+  "technique": "Coq proof: soundness of corner-evaluation on monotone boxes, of the partitioned bivariate combinator over interval sets with capacity, and of composed integer expressions + in-Coq differential check + per-function soundness oracle on the implementation",
+  "design_ref": "DESIGN.md section 4, C06",
+  "text": "Theorems (no axioms): for the integer expression language (saturating + - x with the sign-quadrant partition, least, greatest, four comparisons) over interval-set types of any shape within capacity: if an expression evaluates to y on a row of the input type then range propagation succeeds and the propagated set contains y (induction over the tree; the combinator lemma is generic in the function, given coordinate-wise monotonicity on each box). Tied to the code by comparing, inside Coq, the propagated range and the values of generated expression trees with what Expr::super_image / Expr::value return. All other functions and the aggregates (about 60 scalar functions, 15 aggregates) are covered by the soundness oracle only.",
+  "note": "Trusted: Coq kernel, vm_compute, harness. Float, text, date, cast functions and the aggregates are NOT in the model: they are explored by the oracle (partial). Five defects were repaired by fix: commits (var/std bound, lower/upper, count/sum distinct); four classes are listed as known findings (sin/cos period shift, float accumulation rounding, cast and divide/modulo range panics).",
+ },
 }
